@@ -639,6 +639,41 @@ def sdd_perm_case(case):
     return res(viol=_dedup(v), obs=(M, sps, perm, tuple(vals)), nontrivial=(M, sps, perm), stats={'sdd_calls': 1})
 
 
+def sdd_tie_case(case):
+    """case = ('sddtie', M, sps, levels): EVERY assignment of slot energies from a small integer alphabet (so maxima tie,
+    including the silent all-zero symbol) for one symbol, preceded and followed by a plain valid symbol.  With tied maxima
+    the statement leaves open WHICH of the largest slots is turned ON, but the output must still be a valid codeword:
+    exactly one ON slot per symbol, on a slot that attains the largest integrated energy."""
+    from opticomlib.ppm import SDD
+    _, M, sps, levels = case
+    gv_reset(sps=sps, R=1e9)
+    v = Viol()
+    obs = []
+    n = 0
+    for amp in itertools.product(levels, repeat=M):
+        sym = [1.0] + [0.0] * (M - 1)
+        slots = np.array(sym + list(amp) + sym[::-1], dtype=float)
+        x = np.kron(slots, np.ones(sps))
+        for form, obj in sdd_forms(x, with_noise=False).items():
+            y = SDD(obj, M)
+            n += 1
+            a, tname = data_of(y)
+            vals = as_int_list(a)
+            if len(vals) != 3 * M:
+                v.append(('SDD:length', f'M={M} sps={sps} energies={amp}: output has {len(vals)} slots'))
+                continue
+            for k in range(3):
+                blk = vals[k * M:(k + 1) * M]
+                en = list(slots[k * M:(k + 1) * M])
+                if sum(blk) != 1:
+                    v.append(('SDD:not-one-ON:tied-energies', f'M={M} sps={sps} {form}: symbol with slot energies {en} decoded as {blk} ({sum(blk)} ON slots)'))
+                elif en[blk.index(1)] != max(en):
+                    v.append(('SDD:not-argmax:tied-energies', f'M={M} sps={sps} {form}: symbol with slot energies {en} decoded as {blk}'))
+            obs.append(tuple(vals))
+    gv_reset()
+    return res(viol=_dedup(v), obs=tuple(obs), nontrivial=(M, sps, levels), stats={'sdd_calls': n})
+
+
 # =========================================================================== part 4: ValueError clauses
 def ve_case(case):
     """case = ('ve', fn, clause, M, length, form, sps): the call must raise ValueError"""
@@ -790,6 +825,12 @@ def sdd_spaces(tier, seed):
             for p in itertools.permutations(range(1, M + 1)):
                 perm.append(('sddperm', M, sps, p))
     parts.append(('sdd.argmax-permutations', perm, 120))
+    tie = []
+    for M in (2, 4) if quick else (2, 4, 8):
+        for sps in (1, 2, 5, 16):
+            for levels in ((0.0, 1.0), (0.0, 1.0, 2.0)) if M <= 4 else ((0.0, 1.0),):
+                tie.append(('sddtie', M, sps, levels))
+    parts.append(('sdd.tied-energies', tie, 300))
     return parts
 
 
@@ -897,7 +938,7 @@ def run(ctx):
 
     # ---- SDD
     for name, cases, horizon in sdd_spaces(tier, seed):
-        fn = {'sdddac': sdd_dac_case, 'sddarg': sdd_argmax_case, 'sddperm': sdd_perm_case}[cases[0][0]]
+        fn = {'sdddac': sdd_dac_case, 'sddarg': sdd_argmax_case, 'sddperm': sdd_perm_case, 'sddtie': sdd_tie_case}[cases[0][0]]
         ctx.pmap(name, fn, cases, horizon=horizon, recheck=2)
 
     # ---- ValueError clauses
